@@ -7,6 +7,7 @@ candidates come from finite pools (hashing realises, DESIGN.md 2.3).
 """
 from __future__ import annotations
 
+import dataclasses
 from dataclasses import dataclass
 from typing import Any, List
 
@@ -159,7 +160,7 @@ class Gen:
         """domain exclusion (DESIGN.md 3.3): at Literal / Enum positions, data of another
         numeric kind that Python's == identifies with a literal (1 == 1.0 == True)"""
         base = s
-        while base.k in ("ann", "newtype", "undef", "opt"):
+        while base.k in ("ann", "newtype", "undef", "opt", "sub"):
             base = base.a[0]
         if base.k == "union":
             out = set()
@@ -177,6 +178,15 @@ class Gen:
         k = s.k
         if k == "ref":
             return self.directed(self.defs[s.opt("name")], kind, depth)
+        if k == "sub":
+            # cls(value) is a C-level constructor: it realises its argument, so leaves under
+            # a primitive subclass range over small finite domains (stated bound)
+            saved = self.b
+            self.b = dataclasses.replace(saved, int_abs=3, str_pool=True, float_pool=True)
+            try:
+                return self.directed(s.a[0], kind, depth)
+            finally:
+                self.b = saved
         if k in ("ann", "newtype", "undef"):
             uniq = k == "ann" and bool(dict(s.opt("c") or ()).get("unique"))
             self.hashed += uniq
@@ -461,6 +471,15 @@ class Val:
             return self.val(s.a[0], depth, tuple(s.opt("c")) + cs)
         if k == "newtype":
             return self.val(s.a[0], depth, tuple(s.opt("schema") or ()) + cs)
+        if k == "sub":
+            base = s.a[0]
+            if base.k == "int":
+                raw = c.int("i", -3, 3)
+            elif base.k == "str":
+                raw = c.pick(["", "a", "zz"], "sp")
+            else:
+                raw = c.pick(FLOAT_POOL[:3], "fp")
+            return self.prog.cls(s.opt("name"))(raw)
         if k == "int":
             v = c.int("i")
             self.constrain(cs, v, "num")
